@@ -12,6 +12,7 @@ import (
 	_ "verif/checks/c11"
 	_ "verif/checks/c14"
 	_ "verif/checks/c15"
+	_ "verif/checks/c19"
 )
 
 func main() {
